@@ -42,6 +42,7 @@ def run(P, rep, tier):
     rep.attempt(r2_value_types, P, rep, ctx, tier)
     rep.attempt(r3_dump_defaults, P, rep, ctx)
     rep.attempt(r4_constants, P, rep, ctx)
+    rep.attempt(r5_parse_config, P, rep, ctx)
     rep.floor("C12.R1", 6)
     rep.floor("C12.R2", 9)
     rep.floor("C12.R3", 6)
@@ -286,6 +287,33 @@ def r3_dump_defaults(P, rep, ctx):
     f = P.func(f"{B}.BaseModelPlus.yaml")
     rets = [norm(x.value) for x in walk_local(f.node) if isinstance(x, ast.Return)]
     rep.check(rets == ["to_yaml_str(self)"], "C12.R3", f.qual, "yaml() serialises the model itself", f.loc(), construct="yaml()", message=f"yaml() returns {rets}")
+
+
+# pydantic Config keys that decide how values are mapped on input / output, with the values the round-trip rules were
+# checked against (absent = pydantic default)
+PARSE_CONFIG = {
+    "extra": "Extra.allow", "underscore_attrs_are_private": "True", "use_enum_values": "True", "allow_population_by_field_name": "True",
+    "validate_assignment": "True", "validate_all": "True", "allow_inf_nan": "False", "anystr_strip_whitespace": "True", "min_anystr_length": "1",
+    "smart_union": None, "anystr_lower": None, "anystr_upper": None, "max_anystr_length": None, "json_encoders": None, "json_dumps": None, "json_loads": None,
+    "alias_generator": None, "fields": None,
+}
+
+
+def r5_parse_config(P, rep, ctx):
+    """The model configuration all schemas inherit decides how values are coerced on input and dumped on output.  The
+    round-trip argument (R1-R3) was made for this configuration; a changed or added value-mapping key is re-opened."""
+    cfgs = [c for q, c in P.classes.items() if q.startswith("schema.base.BaseModelPlus") and c.name == "Config"]
+    if len(cfgs) != 1:
+        raise AnalysisError("C12.R5: BaseModelPlus.Config not found")
+    cfg = cfgs[0]
+    got = {k: norm(v) for k, v in cfg.attrs.items()}
+    for k, want in sorted(PARSE_CONFIG.items()):
+        have = got.get(k)
+        if want is None and have is None:
+            continue
+        rep.check(have == want, "C12.R5", cfg.qual, f"Config.{k} = {want}", cfg.module.relpath + f":{cfg.node.lineno}", construct=f"Config.{k} = {have}",
+                  message=f"BaseModelPlus.Config.{k} is {have} (the serialisation round trip was established for {want if want is not None else 'the pydantic default'}): this key changes how values are coerced when parsed or how they are dumped"
+                          + (" — with smart_union an instance of a later Union member is kept as it is, but its dump parses back as the first member that accepts it" if k == "smart_union" else ""))
 
 
 def r4_constants(P, rep, ctx):
